@@ -493,10 +493,16 @@ class RuntimeV1_0(Runtime):
         body = event["flow_body"]
         body = "define flow " + flow_id + ":\n" + indent(body, "  ")
 
-        # We parse the flow
-        parsed_data = parse_colang_file("dynamic.co", content=body)
+        # We parse the flow. The body was generated by the LLM, so it might not be a
+        # valid flow once wrapped in a flow definition; in that case we fall back to
+        # a general response, same as when the generated flow cannot be parsed at all.
+        try:
+            parsed_data = parse_colang_file("dynamic.co", content=body)
+            assert len(parsed_data["flows"]) == 1
+        except Exception as e:
+            log.info("Could not parse the dynamic flow: %s", e)
+            return [new_event_dict("BotIntent", intent="general response")]
 
-        assert len(parsed_data["flows"]) == 1
         flow = parsed_data["flows"][0]
 
         # To make sure that the flow will start now, we add a start_flow element at
